@@ -76,6 +76,14 @@ def handle : List String → String
           | some env => hexL (createCommandDefault wd env cmd)
           | none => "bad-op"
       | _, _, _ => "bad-op"
+  | "qms" :: wd :: cmd :: kvs =>
+      -- the default queue-manager job script: template prefix ++ create_command (default redirections)
+      match optWd wd, unhexL cmd, kvs.mapM unhexL with
+      | some wd, some cmd, some kvs =>
+          match pairs kvs with
+          | some env => hexL (Gen.Cmd.qm_default_prefix ++ createCommandDefault wd env cmd)
+          | none => "bad-op"
+      | _, _, _ => "bad-op"
   | "gc" :: kvs =>
       match kvs.mapM unhexL with
       | some kvs =>
